@@ -192,7 +192,7 @@ class Driver:
                     "history_rows": len(self.backend.order),
                     "terminal_at_start": dict(self.backend.terminal_paths())}
         ex = Exec(chooser=self.chooser, policy=cfg["policy"], start=self.clock, horizon=cfg["horizon"],
-                  timer_choices=cfg["timer_choices"], stall_menu=cfg.get("stall"), stall_threads=cfg.get("stall_threads"), tick0=self.tick_,
+                  timer_choices=cfg["timer_choices"], stall_menu=cfg.get("stall"), stall_threads=cfg.get("stall_threads"), stall_ops=cfg.get("stall_ops"), tick0=self.tick_,
                   line_files=set(cfg["line_files"]) if cfg["line_files"] else None,
                   max_steps=cfg["max_steps"], grace=cfg["grace"])
         self.ex = ex
